@@ -44,6 +44,11 @@ def check(ctx):
 
     c06.r06_6(ctx)  # every declared link is loaded, wherever its L line stands in the file (a walk over a dropped link spells nothing)
     ctx.not_decided.append("tokenisation of unusual node names by re.findall('[><][^><]+') (names containing '>' or '<' are not valid GFA ids)")
+    # mechanisms this property rests on (see shared.py): a change there is reported here as well
+    from . import shared as _sh
+
+    _sh.graph_loader(ctx)
+    _sh.cli_layer(ctx, "gaftools.cli.find_path")
 
 
 def r14_1(ctx, g):
